@@ -135,6 +135,30 @@ pub fn guarded<T>(f: impl FnOnce() -> T) -> Result<T, String> {
         }
     })
 }
+/// Set when an operation under test did not return in time: the runaway thread cannot be stopped, so the caller
+/// records the outcome, flushes its output and ends the process.
+pub static HUNG: std::sync::atomic::AtomicBool = std::sync::atomic::AtomicBool::new(false);
+pub fn hung() -> bool {
+    HUNG.load(std::sync::atomic::Ordering::SeqCst)
+}
+
+/// Run f on its own thread; Err("did not return ...") if it takes longer than `ms` (a loop of the code under test
+/// that no longer terminates is data, like a panic), Err(panic message) if it panics.
+pub fn guarded_timeout<T: Send + 'static>(ms: u64, f: impl FnOnce() -> T + Send + 'static) -> Result<T, String> {
+    let (tx, rx) = std::sync::mpsc::channel();
+    std::thread::spawn(move || {
+        let r = guarded(f);
+        let _ = tx.send(r);
+    });
+    match rx.recv_timeout(std::time::Duration::from_millis(ms)) {
+        Ok(r) => r,
+        Err(_) => {
+            HUNG.store(true, std::sync::atomic::Ordering::SeqCst);
+            Err(format!("did not return within {ms} ms"))
+        }
+    }
+}
+
 pub fn quiet_panics() {
     std::panic::set_hook(Box::new(|_| {}));
 }
